@@ -63,9 +63,16 @@ func patBytes(seed, pos, n int) []byte {
 
 // ---------------------------------------------------------------- torrent construction
 
+// a file of the layout: its length and its BEP 47 attribute string ("" = none).  Whether it is a
+// padding file is decided by the attribute alone (it contains 'p'); its NAME never matters.
 type fileSpec struct {
 	length int64
-	pad    bool
+	pad    bool   // = strings.Contains(attr, "p"), the property's notion of a padding file
+	attr   string
+}
+
+func mkFile(length int64, attr string) fileSpec {
+	return fileSpec{length, strings.Contains(attr, "p"), attr}
 }
 
 func bstr(s string) string { return fmt.Sprintf("%d:%s", len(s), s) }
@@ -74,7 +81,7 @@ func bstr(s string) string { return fmt.Sprintf("%d:%s", len(s), s) }
 // name and the path components of file i.  Reserved characters, blanks, non-ASCII, nested
 // directories: what must reach the web server as <base>/<name>/<comp>/<comp>… with every component
 // percent-encoded on its own (BEP 19).
-const nStyles = 8
+const nStyles = 12
 
 func styleName(k int) string {
 	switch k {
@@ -88,6 +95,10 @@ func styleName(k int) string {
 		return "a+b&c=d"
 	case 7:
 		return "x%41;y, z"
+	case 9:
+		return "_____padding_file_0"
+	case 11:
+		return ".pad"
 	}
 	return "t"
 }
@@ -108,6 +119,15 @@ func stylePath(k, i int) []string {
 		return []string{fmt.Sprintf("d%d", i%2), fmt.Sprintf("f%d", i)}
 	case 7:
 		return []string{fmt.Sprintf("%%zz%d", i), "a:b@c$d"}
+	// names that look like padding files, for files that are whatever their attribute says
+	case 8:
+		return []string{".pad", fmt.Sprint(i)}
+	case 9:
+		return []string{fmt.Sprintf("_____padding_file_%d_if you see this file, please update", i)}
+	case 10:
+		return []string{"docs", fmt.Sprintf("_____padding_file_%d", i)}
+	case 11:
+		return []string{".pad", fmt.Sprintf("notes%d.txt", i)}
 	}
 	return []string{fmt.Sprintf("f%d", i)}
 }
@@ -125,8 +145,8 @@ func metainfoStyle(style, ps int, total int64, files []fileSpec, hashOf func(i i
 		b.WriteString("5:filesl")
 		for i, f := range files {
 			b.WriteString("d")
-			if f.pad {
-				b.WriteString("4:attr1:p")
+			if f.attr != "" {
+				b.WriteString("4:attr" + bstr(f.attr))
 			}
 			fmt.Fprintf(&b, "6:lengthi%de4:pathl", f.length)
 			for _, c := range stylePath(style, i) {
@@ -767,6 +787,7 @@ func partition(files []fileSpec, total int64, A, L int64) []chunk {
 	return out
 }
 
+// file specs `len:attr`: attr is the attribute string of the metainfo; `f` stands for "no attribute"
 func parseFiles(spec string) ([]fileSpec, bool) {
 	if spec == "-" {
 		return nil, true
@@ -774,14 +795,18 @@ func parseFiles(spec string) ([]fileSpec, bool) {
 	var fs []fileSpec
 	for _, it := range strings.Split(spec, ",") {
 		f := strings.Split(it, ":")
-		if len(f) != 2 {
+		if len(f) != 2 || f[1] == "" {
 			return nil, false
 		}
 		n, err := strconv.ParseInt(f[0], 10, 64)
 		if err != nil || n < 0 {
 			return nil, false
 		}
-		fs = append(fs, fileSpec{n, f[1] == "p"})
+		attr := f[1]
+		if attr == "f" {
+			attr = ""
+		}
+		fs = append(fs, mkFile(n, attr))
 	}
 	return fs, true
 }
@@ -792,24 +817,23 @@ func filesStr(fs []fileSpec) string {
 	}
 	var s []string
 	for _, f := range fs {
-		k := "f"
-		if f.pad {
-			k = "p"
+		k := f.attr
+		if k == "" {
+			k = "f"
 		}
 		s = append(s, fmt.Sprintf("%d:%s", f.length, k))
 	}
 	return strings.Join(s, ",")
 }
 
-func idxOfPath(p []string) int {
-	if len(p) != 1 || !strings.HasPrefix(p[0], "f") {
-		return -1
+func idxOfPath(style, nfiles int, p []string) int {
+	key := strings.Join(p, "\x00")
+	for i := 0; i < nfiles; i++ {
+		if strings.Join(stylePath(style, i), "\x00") == key {
+			return i
+		}
 	}
-	n, err := strconv.Atoi(p[0][1:])
-	if err != nil {
-		return -1
-	}
-	return n
+	return -1
 }
 
 func fcStr(cs []chunk) string {
@@ -827,6 +851,10 @@ func fcStr(cs []chunk) string {
 	return strings.Join(s, ";")
 }
 
+// the naming style of an fc op's torrent is derived from its total length (any style will do: the
+// chunks and their padding flags must not depend on the names)
+func fcStyle(total int64) int { return int(total % nStyles) }
+
 // the torrent of the previous fc op (several queries on one large layout parse it once)
 var fcCacheKey string
 var fcCacheT *tor.Torrent
@@ -836,7 +864,7 @@ func (s *state) fcOp(ps int, total int64, files []fileSpec, index, offset, lengt
 	t := fcCacheT
 	if key != fcCacheKey || t == nil {
 		var err error
-		t, err = tor.ReadTorrent("", bytes.NewReader(metainfo(ps, total, files, nil)))
+		t, err = tor.ReadTorrent("", bytes.NewReader(metainfoStyle(fcStyle(total), ps, total, files, nil)))
 		if err != nil {
 			return "torrent-error:" + err.Error()
 		}
@@ -847,7 +875,7 @@ func (s *state) fcOp(ps int, total int64, files []fileSpec, index, offset, lengt
 		for _, fc := range tor.VerifFileChunks(t, uint32(index), uint32(offset), uint32(length)) {
 			idx := 0
 			if files != nil {
-				idx = idxOfPath(fc.Path)
+				idx = idxOfPath(fcStyle(total), len(files), fc.Path)
 			}
 			got = append(got, chunk{idx, fc.FileLength, fc.Offset, fc.Length, fc.Pad})
 		}
